@@ -619,3 +619,59 @@ func runPinFaultScenarios(rng *rand.Rand, n int, st *c06Stats, fail func(prop, m
 		}
 	}
 }
+
+// Bounded merges between logs with DIFFERENT orderings (C16): the other log linearises with
+// FirstWriteWins, the receiver with its own ordering; the merge keeps the newest entries of the
+// RECEIVER's linearisation of the unbounded merge.
+func runMixedSortScenarios(rng *rand.Rand, n int, st *c06Stats, fail func(prop, mon, key, detail string, c interface{})) {
+	ctx := context.Background()
+	for it := 0; it < n; it++ {
+		w := newWorld()
+		rsort := pick(rng, []string{"lww", "hash"})
+		other, _ := ipfslog.NewLog(w.api, w.idents["A"], &ipfslog.LogOptions{ID: "L", SortFn: sortFnOf("fww")})
+		side, _ := ipfslog.NewLog(w.api, w.idents["B"], &ipfslog.LogOptions{ID: "L", SortFn: sortFnOf("fww")})
+		na, nb := 2+rng.Intn(5), 1+rng.Intn(3)
+		for i := 0; i < na; i++ {
+			if _, err := other.Append(ctx, []byte(fmt.Sprintf("a%d", i)), nil); err != nil {
+				panic(err)
+			}
+		}
+		for i := 0; i < nb; i++ {
+			if _, err := side.Append(ctx, []byte(fmt.Sprintf("b%d", i)), nil); err != nil {
+				panic(err)
+			}
+		}
+		if _, err := other.Join(side, -1); err != nil { // two heads over branches of unequal height
+			panic(err)
+		}
+		mkReceiver := func() *ipfslog.IPFSLog {
+			r, _ := ipfslog.NewLog(w.api, w.idents["C"], &ipfslog.LogOptions{ID: "L", SortFn: sortFnOf(rsort)})
+			return r
+		}
+		twin := mkReceiver()
+		if _, err := twin.Join(other, -1); err != nil {
+			panic(err)
+		}
+		full := hashesOf(twin.Values().Slice())
+		for size := 0; size <= len(full)+1; size++ {
+			r := mkReceiver()
+			st.aliasRuns++
+			info := map[string]interface{}{"scenario": "bounded merge from a log with another ordering (FirstWriteWins)", "receiver_sort": rsort, "a_entries": na, "b_entries": nb, "bound": size, "seed_iteration": it}
+			if _, err := r.Join(other, size); err != nil {
+				fail("C16", "bounded-join-succeeds", "C16:join-failed", err.Error(), info)
+				continue
+			}
+			want := full
+			if size < len(full) {
+				want = full[len(full)-size:]
+			}
+			if got := hashesOf(r.Values().Slice()); !eqStrings(got, want) {
+				fail("C16", "bounded-join-vs-unbounded", "C16:differs-from-unbounded-merge",
+					fmt.Sprintf("Join(size=%d) from a log with another ordering left %v, the last entries of the unbounded merge are %v", size, got, want), info)
+			}
+			if hd := sortedCopy(hashesOf(r.Heads().Slice())); !eqStrings(hd, unreferenced(r.Values().Slice())) {
+				fail("C16", "bounded-join-heads", "C16:wrong-heads", "heads are not the unreferenced entries among the kept ones", info)
+			}
+		}
+	}
+}
